@@ -46,11 +46,62 @@ structure LocalDecl where
   marsh : List (String × List MProp)       -- generator key ↦ properties of the attached marshalling object
 deriving Repr
 
+/-! ### value constraints of the external-type models (`Field(pattern=…)`)
+
+The pinned tree constrains one field: `jni.translator` must be a (possibly `::`-led) `::`-joined list of C++ identifiers,
+`^(::)?([a-zA-Z][a-zA-Z0-9_]*(::))*[a-zA-Z][a-zA-Z0-9_]*$`. The expression is modelled as the automaton it denotes; every other
+string field takes any string (`jni.type_signature`, the Java / Objective-C type names, the header paths: whatever the naming
+configuration and the identifiers of the IDL — letters, digits, `_` — produce). -/
+
+inductive Pat
+  | any
+  | cppName
+deriving DecidableEq, Repr, Inhabited
+
+def isAlphaC (c : Char) : Bool := ('a' ≤ c && c ≤ 'z') || ('A' ≤ c && c ≤ 'Z')
+def isWordC (c : Char) : Bool := isAlphaC c || ('0' ≤ c && c ≤ '9') || c == '_'
+
+/-- states of the automaton of `ID(::ID)*`: before an identifier, inside one, after one `:` -/
+inductive NameSt | start | ident | colon
+deriving DecidableEq, Repr
+
+def nameStep : NameSt → Char → Option NameSt
+  | .start, c => if isAlphaC c then some .ident else none
+  | .ident, c => if isWordC c then some .ident else if c = ':' then some .colon else none
+  | .colon, c => if c = ':' then some .start else none
+
+def nameRun : NameSt → List Char → Option NameSt
+  | s, [] => some s
+  | s, c :: cs =>
+    match nameStep s c with
+    | some s' => nameRun s' cs
+    | none => none
+
+/-- the optional leading `::` -/
+def dropLead : List Char → List Char
+  | ':' :: ':' :: r => r
+  | s => s
+
+def cppNameOk (s : List Char) : Bool := nameRun .start (dropLead s) == some .ident
+
+def Pat.accepts : Pat → Val → Bool
+  | .any, _ => true
+  | .cppName, .str s => cppNameOk s.toList
+  | .cppName, _ => true          -- (the constraint is on a string field; other values fail the type check, not the pattern)
+
+/-- the patterns of the live models that the model implements: (generator, field, expression as written) -/
+def modelledPatterns : List (String × String × String) :=
+  [("jni", "translator", "^(::)?([a-zA-Z][a-zA-Z0-9_]*(::))*[a-zA-Z][a-zA-Z0-9_]*$")]
+
+/-- generated obligation: every `pattern=` of a live external-type model is one the model implements -/
+def patternsModelled (live : List (String × String × String)) : Bool := live.all (modelledPatterns.contains ·)
+
 /-- one field of a generator's external-type model -/
 structure FieldSpec where
   name : String
   required : Bool
   default : Val
+  pat : Pat := .any
 deriving DecidableEq, Repr
 
 abbrev ExtSpec := List (String × List FieldSpec)
@@ -87,8 +138,12 @@ def «export» (d : LocalDecl) : Doc :=
   { base := d.base.fields.filter (fun kv => !kv.2.isNull),
     gens := d.marsh.map (fun (g, ps) => (g, exportProps ps)) }
 
+/-- the value of every constrained field that the document gives matches the field's pattern -/
+def patsOk (fs : List FieldSpec) (kv : List (String × Val)) : Bool :=
+  fs.all (fun f => match lookup f.name kv with | some v => f.pat.accepts v | none => true)
+
 def loadFields (fs : List FieldSpec) (kv : List (String × Val)) : Option (List (String × Val)) :=
-  if fs.all (fun f => !f.required || (lookup f.name kv).isSome) then
+  if fs.all (fun f => !f.required || (lookup f.name kv).isSome) && patsOk fs kv then
     some (fs.map (fun f => (f.name, (lookup f.name kv).getD f.default)))
   else none
 
@@ -230,6 +285,46 @@ def locate {α : Type} : List (Slot α) → Option α
     `none`: FileNotFoundException at the directive -/
 def externRegistry (spec : ExtSpec) (cands : List (Slot (List Doc))) : Option FileResult :=
   (locate cands).map (fun docs => loadFile spec docs [])
+
+/-! ## re-export histories: the same paths, round after round, in one process
+
+A library is exported, a dependent program pulls the files in with `@extern`; then the library is exported *again to the same paths*
+(another naming configuration, edited declarations) and the dependent program is parsed again. `Resolver.load_external` of the
+pinned tree reads the file every time (`path.read_text()`): what a round registers is a function of what the files hold *now*. -/
+
+/-- the files of a directory tree: path ↦ documents; the latest write of a path stands in front -/
+abbrev Disk := List (String × List Doc)
+
+def Disk.write (disk : Disk) (files : List (String × List Doc)) : Disk := files ++ disk
+
+def Disk.read (disk : Disk) (p : String) : Option (List Doc) := lookup p disk
+
+/-- `load_external` of the given files, in order, into one registry; `none`: a file does not exist -/
+def loadPaths (spec : ExtSpec) (disk : Disk) : List String → List Entry → Option FileResult
+  | [], reg => some (.ok reg)
+  | p :: ps, reg =>
+    match disk.read p with
+    | none => none
+    | some docs =>
+      match loadFile spec docs reg with
+      | .ok reg' => loadPaths spec disk ps reg'
+      | r => some r
+
+structure Round where
+  written : List (String × List Doc)    -- what the yaml target writes in this round (paths as written)
+  externs : List String                 -- the files the dependent program of this round names in `@extern` directives
+deriving Repr
+
+/-- the registry of the dependent program of every round -/
+def runRounds (spec : ExtSpec) : Disk → List Round → List (Option FileResult)
+  | _, [] => []
+  | disk, r :: rs => loadPaths spec (disk.write r.written) r.externs [] :: runRounds spec (disk.write r.written) rs
+
+/-- a round that names only files it has written itself -/
+def Round.closed (r : Round) : Bool := r.externs.all (fun p => (lookup p r.written).isSome)
+
+/-- what the round registers when nothing else was ever written -/
+def Round.alone (spec : ExtSpec) (r : Round) : Option FileResult := loadPaths spec r.written r.externs []
 
 /-! ## tables regenerated from the live source on every run, and the checks over them -/
 
